@@ -399,6 +399,11 @@ func (ps *PathSim) sym(st *pstate, v ssa.Value) *Sym {
 	}
 	switch x := v.(type) {
 	case *ssa.Const:
+		if x.Value == nil {
+			if _, isStruct := x.Type().Underlying().(*types.Struct); isStruct {
+				return zeroSym(x.Type()) // T{}: every field is its zero value
+			}
+		}
 		return &Sym{K: sConst, C: x.Value, T: x.Type(), V: x}
 	case *ssa.Global:
 		return &Sym{K: sGlobal, V: x, T: x.Type()}
@@ -728,6 +733,20 @@ func getPath(v *Sym, path []string) *Sym {
 				continue
 			}
 			if v.A == nil {
+				if v.T != nil {
+					if st, ok := v.T.Underlying().(*types.Struct); ok {
+						found := false
+						for i := 0; i < st.NumFields(); i++ {
+							if st.Field(i).Name() == f {
+								v, found = zeroSym(st.Field(i).Type()), true
+								break
+							}
+						}
+						if found {
+							continue
+						}
+					}
+				}
 				// zero field: type unknown here
 				return &Sym{K: sStruct, A: nil, F: map[string]*Sym{}, Str: "zero." + f}
 			}
